@@ -367,6 +367,27 @@ def sum_points_add(chk, P, key):
                         ops.append((x, {"op": c.callee.get("name")}, {"line": c.loc}))
             if not ops:
                 raise mir.AnchorMissing("the accumulation in %s" % k)
+            # where the integer sum overflows, what is stored instead still derives from the two operands (the sum carried on as a double) - a constant
+            # stand-in (+Infinity) reports a hugely *negative* total as positive infinity
+            for x in bodies:
+                for c in x.calls(normal_only=True):
+                    def _from_checked(o_, d_=0):
+                        while o_[0] == "call" and d_ < 6:
+                            if (o_[1].callee.get("name") or "").startswith("checked_"):
+                                return True
+                            if not o_[1].args:
+                                return False
+                            o_ = o_[1].body.origin(o_[1].args[0])
+                            d_ += 1
+                        return False
+                    if c.callee.get("name") in ("unwrap_or", "unwrap_or_else", "unwrap_or_default") and c.args and _from_checked(x.origin(c.args[0])):
+                        if c.callee.get("name") == "unwrap_or_default":
+                            return False, "%s replaces an overflowing sum by the default value" % k, [], c.loc
+                        fb = x.origin(c.args[1])
+                        rts = common.deep_roots(P, x, fb)
+                        if not any(r_[0] == "param" for r_ in rts):
+                            return False, ("%s replaces an integer sum that overflows by %s, which does not depend on the samples: a total below i64::MIN is exported as "
+                                           "+Infinity (and one above i64::MAX loses its magnitude)" % (k, o_str(fb)[:60])), [], c.loc
             for x, rv, st in ops:
                 o = rv["op"].replace("WithOverflow", "")
                 if not (o == "Add" or o.endswith("_add")):
